@@ -31,6 +31,8 @@ pub fn profile() -> Profile {
         rich_choice_text: true,
         no_tags_in_functions: true,
         nested_inline: true,
+        label_diverts: true,
+        block_sequences: true,
         max_depth: 3,
         ..Profile::default()
     }
@@ -468,6 +470,12 @@ fn explore(src: &str, prog: &crate::ast::Program, bounds: &Bounds, case: &J, acc
     let lw = refint::lower(prog);
     for f in prog.features() {
         acc.class(&format!("program:{f}"));
+    }
+    if src.lines().any(|l| {
+        let l = l.trim_start();
+        l.starts_with("-> k") && l.rsplit('.').next().map(|x| x.starts_with('l')).unwrap_or(false) && l.contains('.')
+    }) {
+        acc.class("program:divert_to_gather_label");
     }
     // depth-first over choice paths, every path replayed from scratch
     let mut stack: Vec<Vec<usize>> = vec![vec![]];
